@@ -145,7 +145,7 @@ class _null:
 
 def search(seed, budget):
     rnd = random.Random(seed)
-    n = 150 if budget == "quick" else 3000
+    n = 1200 if budget == "quick" else 8000
     seen = set()
     for i in range(n):
         sc = gen(rnd)
